@@ -15,7 +15,31 @@ inductive Cbor where
   | map (kvs : List (Cbor × Cbor))
   | tag (t : Nat) (v : Cbor)
   | simple (n : Nat)          -- 20 false, 21 true, 22 null, 23 undefined
-  deriving Repr, Inhabited, BEq
+  deriving Repr, Inhabited
+
+mutual
+/-- structural equality test (written out so that both the kernel and proofs can unfold it) -/
+def Cbor.beq : Cbor → Cbor → Bool
+  | .uint a, .uint b => a == b
+  | .nint a, .nint b => a == b
+  | .bstr a, .bstr b => a == b
+  | .tstr a, .tstr b => a == b
+  | .arr a, .arr b => Cbor.beqList a b
+  | .map a, .map b => Cbor.beqPairs a b
+  | .tag t a, .tag u b => t == u && Cbor.beq a b
+  | .simple a, .simple b => a == b
+  | _, _ => false
+def Cbor.beqList : List Cbor → List Cbor → Bool
+  | [], [] => true
+  | x :: xs, y :: ys => Cbor.beq x y && Cbor.beqList xs ys
+  | _, _ => false
+def Cbor.beqPairs : List (Cbor × Cbor) → List (Cbor × Cbor) → Bool
+  | [], [] => true
+  | (k, v) :: xs, (k', v') :: ys => Cbor.beq k k' && Cbor.beq v v' && Cbor.beqPairs xs ys
+  | _, _ => false
+end
+
+instance : BEq Cbor := ⟨Cbor.beq⟩
 
 def head (major n : Nat) : Bytes :=
   if n < 24 then [UInt8.ofNat (major * 32 + n)]
